@@ -52,14 +52,30 @@ func runC20(r *Result, d *drv.Driver, tier string, seed int64, replay string) {
 	if tier == "thorough" {
 		maxOffer = 4
 	}
-	r.Rule = fmt.Sprintf("exhaustive over a 5-version universe {1.4,1.3,1.2,1.1,2.0}: every configured SupportedVersions list of length <= %d (order, duplicates; empty = default) x every offer of length <= %d, each sent as a real Discover Versions request to the real Server over an in-memory connection; reply compared with the model and with the property stated directly (empty offer -> whole list in order; else offer filtered by membership); "+
+	r.Rule = fmt.Sprintf("exhaustive over a 5-version universe {1.4,1.3,1.2,1.1,2.0}: every configured SupportedVersions list of length <= %d (order, duplicates; empty = default) x every offer of length <= %d, configured in one of three orders (struct literal / Handle then assignment / assignment then Handle), each sent as a real Discover Versions request to the real Server over an in-memory connection; reply compared with the model and with the property stated directly (empty offer -> whole list in order; else offer filtered by membership); "+
 		"after each server's run the configuration and DefaultSupportedVersions must be unchanged and not share a backing array. distinct = one per (configuration, offer)", maxSup, maxOffer)
 	r.Exhaustive = true
 	sups := allLists(maxSup)
 	offers := allLists(maxOffer)
 	defaultBefore := append([]kmip.ProtocolVersion(nil), kmip.DefaultSupportedVersions...)
-	for _, sup := range sups {
-		s := &kmip.Server{SupportedVersions: append([]kmip.ProtocolVersion(nil), sup...)}
+	for si, sup := range sups {
+		// the configuration reaches the Server in the three orders a caller may use: struct literal; other handlers registered
+		// first and the version list assigned afterwards; version list first, then handlers
+		var s *kmip.Server
+		other := func(ctx *kmip.RequestContext, item *kmip.RequestBatchItem) (interface{}, error) { return nil, nil }
+		switch si % 3 {
+		case 0:
+			s = &kmip.Server{SupportedVersions: append([]kmip.ProtocolVersion(nil), sup...)}
+		case 1:
+			s = &kmip.Server{}
+			s.Handle(kmip.OPERATION_ACTIVATE, other)
+			s.SupportedVersions = append([]kmip.ProtocolVersion(nil), sup...)
+		default:
+			s = &kmip.Server{}
+			s.SupportedVersions = append([]kmip.ProtocolVersion(nil), sup...)
+			s.Handle(kmip.OPERATION_ACTIVATE, other)
+		}
+		r.Stats[fmt.Sprintf("configuration-order-%d", si%3)]++
 		configured := append([]kmip.ProtocolVersion(nil), sup...)
 		server, client := rec.Pipe()
 		l := rec.NewListener()
